@@ -11,9 +11,10 @@ import tlc as T
 import plans
 
 VERIF = os.path.dirname(os.path.dirname(os.path.abspath(__file__)))
-EVID = os.path.join(VERIF, "evidence")
-REPLAY = os.path.join(VERIF, "build", "replay")
-TRACES = os.path.join(VERIF, "build", "traces")
+BUILD = os.environ.get("VERIF_BUILD") or os.path.join(VERIF, "build")
+EVID = os.environ.get("VERIF_EVID") or os.path.join(VERIF, "evidence")
+REPLAY = os.path.join(BUILD, "replay")
+TRACES = os.path.join(BUILD, "traces")
 
 def log(*a):
     print(*a, file=sys.stderr, flush=True)
@@ -179,6 +180,9 @@ def main():
             good.append(f)
     if not good:
         log("no family could be built"); sys.exit(2)
+    if len(errors) * 10 > len(jobs):
+        # a broken generator silently shrinks what is explored: that is a failure of the machinery, not a pass
+        log("[%s] %d of %d families could not be built" % (pid, len(errors), len(jobs))); sys.exit(2)
     module = plan.get("module", "Script_Trace")
     modof = lambda f: f["job"].get("module") or module
     batches = write_batches(pid, good, plan.get("per_batch", 12), modof)
@@ -245,8 +249,8 @@ def main():
         p = remap(v, byfam.get(i))
         v = dict(v); v["p_orig"] = v.get("p"); v["p"] = p
         (mine if p == pid else others).setdefault(i, []).append(v)
-    os.makedirs(os.path.join(VERIF, "build", "last"), exist_ok=True)
-    with open(os.path.join(VERIF, "build", "last", pid + ".json"), "w") as f:
+    os.makedirs(os.path.join(BUILD, "last"), exist_ok=True)
+    with open(os.path.join(BUILD, "last", pid + ".json"), "w") as f:
         json.dump({"mine": {str(k): v for k, v in mine.items()}, "others": {str(k): v for k, v in others.items()},
                    "jobs": {str(i): good[i]["job"] for i in list(mine) + list(others)}}, f, indent=1)
     known = load_known()
@@ -256,15 +260,19 @@ def main():
     for i, vs in sorted(mine.items()):
         fr = good[i]
         # confirm: rebuild the family from its job and validate it alone
-        again = builders.build(fr["job"])
         ok2 = False
-        if "error" not in again:
-            p2 = single_trace(pid, again, "c%04d" % i)
-            r2 = T.validate(p2, module=modof(fr))
-            vs2 = [dict(v, p=remap(v, r2["viols"])) for v in r2["viols"]]
-            if r2["rejected_at"] is not None:
-                vs2.append({"p": plan.get("reject_owner", pid), "rejected": True})
-            ok2 = any(v["p"] == pid for v in vs2)
+        # properties about schedules and address layout (reproducibility, threads, stop) get several attempts
+        for attempt in range(plan.get("confirm_tries", 1)):
+            again = builders.build(fr["job"])
+            if "error" not in again:
+                p2 = single_trace(pid, again, "c%04d" % i)
+                r2 = T.validate(p2, module=modof(fr))
+                vs2 = [dict(v, p=remap(v, r2["viols"])) for v in r2["viols"]]
+                if r2["rejected_at"] is not None:
+                    vs2.append({"p": plan.get("reject_owner", pid), "rejected": True})
+                ok2 = any(v["p"] == pid for v in vs2)
+            if ok2:
+                break
         if not ok2:
             log("[%s] violation not reproduced on re-run, ignored:" % pid, json.dumps(vs[0])[:300])
             continue
